@@ -27,13 +27,15 @@ const (
 	OpRLock
 	OpOnce
 	OpAtomic
+	OpLockWait // a writer that has announced itself waits for the readers to leave
 )
 
-var opNames = [...]string{"start", "Lock", "RLock", "Once", "atomic"}
+var opNames = [...]string{"start", "Lock", "RLock", "Once", "atomic", "LockWait"}
 
 // LockState lives inside the shim objects; the scheduler reads it with atomic loads only.
-// Mutex: A = held. RWMutex: A = writer, B = readers. Once: A = running.
-type LockState struct{ A, B atomic.Int32 }
+// Mutex: A = held. RWMutex: A = writer, B = readers, W = a writer has announced itself and waits for
+// the readers to leave (Go's RWMutex blocks new readers from that moment on). Once: A = running.
+type LockState struct{ A, B, W atomic.Int32 }
 
 // object kinds
 const (
@@ -49,10 +51,13 @@ func canProceed(kind, op int, st *LockState) bool {
 	}
 	switch kind {
 	case KRW:
-		if op == OpRLock {
-			return st.A.Load() == 0
+		switch op {
+		case OpRLock:
+			return st.A.Load() == 0 && st.W.Load() == 0
+		case OpLockWait:
+			return st.B.Load() == 0
 		}
-		return st.A.Load() == 0 && st.B.Load() == 0
+		return st.A.Load() == 0 && st.W.Load() == 0 // writers queue behind one another
 	case KMutex, KOnce:
 		return st.A.Load() == 0
 	}
